@@ -227,10 +227,11 @@ def exit_job(job):
     hook = None
     if instant.startswith("hook:"):
         hook = [instant[5:]]
+    suspend = instant.startswith("after-suspend-resume")
     if instant == "after-suspend-resume":
         args += ["--height", "60%"]  # the non-fullscreen renderer: Pause / Resume re-initialise the terminal modes
     s = P.Session(args, ["x y", "z"], rows=12, cols=60, env={"C14_TAG": tag, "C14_DIR": base, "C14_CHILD": child}, hook_points=hook,
-                  job_control=(instant == "after-suspend-resume"))
+                  job_control=suspend)
     res = dict(evals=1, nt=1)
     d = {"exit": exit_how, "running": running, "child": child, "instant": instant}
     try:
@@ -265,7 +266,7 @@ def exit_job(job):
             t0 = time.time()
             while time.time() - t0 < 0.7:
                 s.pump(0.02)
-        elif instant == "after-suspend-resume":
+        elif suspend:
             # CTRL-Z: fzf restores the terminal and stops itself; SIGCONT: it takes the terminal back
             s.keys(b"\x1a")
             # the job-control shell resumes it at once; give the stop / continue cycle time to happen, then make sure it answers
@@ -276,6 +277,10 @@ def exit_job(job):
             if not ok:
                 res["violation"] = ("exit:not-answering-after-resume", d)
                 return res
+            if s.job_stops() != 1:
+                res["inconclusive"] = "the job was seen stopped %d times, not once" % s.job_stops()
+                return res
+            res["counters"] = {"suspend-resume-cycles": 1}
             s.settle_screen(0.05)
         waits_for_child = running in ("execute-silent", "transform", "execute") and child != "quick"
         if exit_how == "accept":
@@ -437,6 +442,9 @@ def run(c, replay):
                 if running == "reload":
                     instants += ["hook:reader:fin"]
                 instants += ["hook:term:exit"] if (running, child) in (("preview", "slow"), ("none", "quick")) else []
+                if (running, child) in (("none", "quick"), ("preview", "quick"), ("preview", "slow")):
+                    # CTRL-Z / continue before the exit, under a minimal job-control parent; --height 60% and full screen
+                    instants += ["after-suspend-resume", "after-suspend-resume:fullscreen"]
                 for inst in instants:
                     if running in ("execute", "execute-silent", "transform") and exit_how in ("accept", "abort") and child != "quick":
                         continue  # keys are not read while the child owns the terminal; signals are the exit paths there
@@ -444,6 +452,6 @@ def run(c, replay):
                         continue  # documented: SIGINT while executing is meant for the executing command, not for fzf
                     jobs.append((exit_how, running, child, inst))
     c.bounds["exit"] = dict(exit_paths=["accept", "abort", "SIGTERM", "SIGINT"], running=["nothing", "preview", "execute-silent", "execute", "reload", "transform"],
-                            child_classes=["quick", "slow (gated)", "chatty (gated)"], instants=["immediately", "child started", "700 ms later", "held at hook points"], sessions=len(jobs))
+                            child_classes=["quick", "slow (gated)", "chatty (gated)"], instants=["immediately", "child started", "700 ms later", "held at hook points", "after CTRL-Z and continuation (--height and full screen)"], sessions=len(jobs))
     sweep.run_jobs(c, "exit", exit_job, jobs, deadline_s=c.pick(200, 1200),
                    rule="exit path x what is running x child class x instant: termios restored, DEC modes off, TMPDIR empty, no process left")
